@@ -123,6 +123,11 @@ func runRace(rep *ev.Report, reps int) (int, int, bool) {
 			fs = append(fs, "?")
 		}
 		fs = fs[:2]
+		if fs[0] == "?" && fs[1] == "?" {
+			// both accesses are in the harness itself: not a finding about the code under test
+			fmt.Fprintln(os.Stderr, "clustermc: ignoring a race report without RedisGO frames:\n"+blk)
+			continue
+		}
 		sort.Strings(fs)
 		k := fs[0] + "|" + fs[1]
 		reports++
